@@ -2,6 +2,7 @@ package main
 
 import (
 	"fmt"
+	"math"
 	"math/rand"
 	"strconv"
 	"strings"
@@ -382,6 +383,14 @@ func genGame(o *Out, r *rand.Rand, thorough bool) {
 	for _, s := range seeds {
 		o.do(ztableLine(s))
 	}
+	// the property holds for EVERY seed: the edges of the seed domain get their tables recovered and judged too
+	// (separating keys non-zero and pairwise distinct), and one of them is used for games
+	edge := []int64{-1, 1 << 32, -(1 << 32), 3 << 32, 1 << 62, math.MaxInt64, math.MinInt64}
+	for _, s := range edge {
+		o.do(ztableLine(s))
+		o.Count("ztable:edge-seed")
+	}
+	seeds = append(seeds, edge[r.Intn(len(edge))])
 	for i := 0; i < n; i++ {
 		seed := seeds[r.Intn(len(seeds))]
 		start := gameStarts[r.Intn(len(gameStarts))]
